@@ -6,7 +6,7 @@ from typing import Dict, List, Optional, Tuple
 
 from ..astutil import arg_or_kw, body_walk, const_value, dotted, kwarg, norm, positional_params, short, walk_local
 from ..cfg import branch_raises, cfg_of
-from ..common import find_calls_named, returned_exprs
+from ..common import exit_exprs, find_calls_named, returned_exprs
 from ..flow import Defs
 from ..linform import p_add, p_atom, p_const, poly, poly_eq, show
 from ..orient import count_reversals
@@ -341,7 +341,7 @@ def check_expectation(ctx):
     # every exit is the quadratic form with the sparse matrix: a second way of computing the value (a diagonal shortcut, a
     # per-term loop) is another implementation of the qubit numbering, which nothing here has related to get_sparse_operator
     foreign = []
-    for r in returned_exprs(ge.node):
+    for r in exit_exprs(ge.node):
         v = r
         if isinstance(v, ast.Name):
             ds = [x for x in d.defs.get(v.id, []) if isinstance(x, ast.AST)]
@@ -529,6 +529,12 @@ def run(ctx):
     check_caches(ctx, "C09-D6 conversions-stateless", ['operators._utils', 'operators._openfermion_utils.sparse_tools', 'operators._pauli_operators', 'api.wavefunction_simulator'])
     check_reverse(ctx)
     check_hermitian(ctx)
+    # is_hermitian compares an operator with its conjugate as (sets of) terms: it agrees with the matrix only if terms that compare
+    # equal also hash equal -- decided once, by C03-D6
+    from ..common import share_rule
+    from . import c03
+
+    share_rule(ctx, "C03", lambda sub: c03.check_hash_not_finer_than_eq(sub, "x"), R2)
     check_sparse(ctx)
     check_expectation(ctx)
     check_terms_not_merged_by_key(ctx)
